@@ -12,6 +12,9 @@ A *program* (JSON-able dict) belongs to a small family:
 
     stmt:  ['tag', 'xy']            PRINT "xy";           (two-character tag)
            ['ctl', 'K', 'ON'|'OFF'|'STOP']
+           ['redef', 'K']           ON <event> GOSUB <same line> executed again: defines the handler line only -
+                                    it is not an ON/OFF/STOP, so mode, remembered occurrence and the
+                                    "handler has not returned" block are unchanged
            ['err']                  ERROR 77              (only when errh is given)
            ['ret']                  RETURN
            ['resume']               RESUME NEXT
@@ -115,7 +118,8 @@ def simulate(prog, schedule, chooser, post_tags=('zz',), max_steps=400):
     stats = {'entries': 0, 'lost_off': 0, 'remembered_stop': 0, 'remembered_in_handler': 0,
              'during_error': 0, 'reentry_after_on': 0, 'simultaneous': 0, 'after_end': 0,
              'pending_at_off': 0, 'coalesced': 0, 'nested_depth': 0, 'entries_after_stop_on': 0,
-             'unhandled_at_end': 0, 'unpinned_stop_while_off': 0}
+             'unhandled_at_end': 0, 'unpinned_stop_while_off': 0,
+             'redefinitions': 0, 'redefinitions_in_nontrivial_state': 0}
     b = 0
     while True:
         b += 1
@@ -183,7 +187,11 @@ def simulate(prog, schedule, chooser, post_tags=('zz',), max_steps=400):
         if op == 'tag':
             trace.append(st[1])
             pc += 1
-        elif op == 'def':
+        elif op in ('def', 'redef'):
+            if op == 'redef':
+                stats['redefinitions'] += 1
+                if blocked[st[1]] or mode[st[1]] == 'stopped' or pending[st[1]]:
+                    stats['redefinitions_in_nontrivial_state'] += 1
             pc += 1
         elif op == 'ctl':
             n, cmd = st[1], st[2]
